@@ -113,4 +113,44 @@ def dispatcherConnect : Machine DispIn DispState DispOut where
   out _ i := { ready := i.readys.getD 0 false, slaves := [i.master], sel := 0 }
   next s _ := s
 
+/-! ### What the constructors build for degenerate port counts
+
+      Arbiter([], slave)          : `pass` — nothing is connected (slave.valid = 0; there is not even a `grant`)
+      Arbiter([m0], slave)        : `self.grant = Signal()` (constant 0);  m0.connect(slave)
+      Dispatcher(master, [])      : only `self.sel = Signal()` — master.ready is left undriven (0)
+      Dispatcher(master, [s0])    : (without one_hot)  master.connect(s0);  `sel` is an unused signal
+-/
+
+/-- `Arbiter([m0], slave)`: a plain connection, no `Status`, no round robin. -/
+def arbiterConnect : Machine ArbIn ArbState ArbOut where
+  init := { grant := 0, ongoing := [] }
+  out _ i := { readys := [i.ready], slave := i.masters.getD 0 Beat.idle, grant := 0 }
+  next s _ := s
+
+/-- `Arbiter([], slave)`: no logic at all. -/
+def arbiterEmpty : Machine ArbIn ArbState ArbOut where
+  init := { grant := 0, ongoing := [] }
+  out _ _ := { readys := [], slave := Beat.idle, grant := 0 }
+  next s _ := s
+
+/-- The machine `Arbiter(masters, slave)` builds for `n = len(masters)`. -/
+def arbiterCtor (n : Nat) : Machine ArbIn ArbState ArbOut :=
+  match n with
+  | 0 => arbiterEmpty
+  | 1 => arbiterConnect
+  | n + 2 => arbiter (n + 2)
+
+/-- `Dispatcher(master, [])`: the master is never ready, nothing is presented anywhere. -/
+def dispatcherEmpty : Machine DispIn DispState DispOut where
+  init := { first := true, selOngoing := 0 }
+  out _ _ := { ready := false, slaves := [], sel := 0 }
+  next s _ := s
+
+/-- The machine `Dispatcher(master, slaves, one_hot)` builds for `m = len(slaves)`. -/
+def dispatcherCtor (m : Nat) (oneHot : Bool) : Machine DispIn DispState DispOut :=
+  match m, oneHot with
+  | 0, _ => dispatcherEmpty
+  | 1, false => dispatcherConnect
+  | m, oh => dispatcher m oh
+
 end Litex.Packet
